@@ -127,7 +127,7 @@ def node_index(name):
 
 
 def run_shard(shard, tier):
-    res = e1.run_shard_generic(shard, tier, ID, check_case, variants=('pickle', 'fromdict-raw'))
+    res = e1.run_shard_generic(shard, tier, ID, check_case, variants=('pickle', 'fromdict-raw', 'used'))
     if shard[0] == 'S' and shard[1] * shard[2] <= 9:
         import collections
         ctr = collections.Counter()
